@@ -3,9 +3,9 @@ package main
 func init() {
 	T := "static analysis of the type-checked AST and go/ssa form: "
 	propInfo["C01"] = PropInfo{
-		Explanation: "QR: format/version BCH words, the 160-row block table, alphanumeric alphabet and mode indicators, mask formulas, format/version bit coordinates, character-count widths, capacity guard, padding constants, numeric-mode digit validation (R-ATOI) and the channel pipelines are as ISO 18004 prescribes.",
-		NotDecided:  "bit-stream assembly for arbitrary content, interleaving order, zig-zag placement, Reed-Solomon arithmetic, mask choice: the decoded content of a rendered symbol is not computed.",
-		Technique:   T + "constant-folded tables vs closed forms (BCH, geometry) and embedded ISO table; polynomial normal forms of mask/coordinate formulas; DigitOnly validation-loop recognition",
+		Explanation: "QR: format/version BCH words, the 160-row block table, alphanumeric alphabet and mode indicators, mask formulas, format/version bit coordinates, character-count widths, capacity guard, padding constants, numeric-mode digit validation (R-ATOI), the alignment-pattern centres and the module placement order of every version 1..40 (per-version constant propagation of the source functions), the byte/word bridge around the Reed-Solomon encoder and the channel pipelines are as ISO 18004 prescribes.",
+		NotDecided:  "bit-stream assembly for arbitrary content, Reed-Solomon arithmetic on arbitrary data, mask choice: the decoded content of a rendered symbol is not computed.",
+		Technique:   T + "constant-folded tables vs closed forms (BCH, geometry) and embedded ISO table; polynomial normal forms of mask/coordinate formulas; per-table-row constant propagation over SSA (alignment centres, placement order of every version) against ISO tables; DigitOnly validation-loop recognition",
 	}
 	propInfo["C04"] = PropInfo{
 		Explanation: "PDF417: row-indicator decision tables (cluster -> formula) equal ISO 15438 and agree between the left and right sibling; Reed-Solomon factor tables equal the closed form over GF(929); codeword pattern tables satisfy the cluster invariants; text sub-mode tables and compaction constants.",
